@@ -470,6 +470,10 @@ def run(P, R, L):
     ord11(P, R, L)
     ord12(P, R, L)
     from . import common as K
+    from . import blind
+    R.clause("TRIG-1", "a writer delayed or parked for level-0 relief always has a due level-0 compaction: level 0 is scored by file count / D, due means score >= 1, "
+             "and D is not above the slow-down / stop triggers")
+    blind.trig1_level0_stall_has_a_due_compaction(P, R, L)
     R.clause("PAIR-10", "a table builder that was finalized/abandoned is removed from the compaction state on every path (a later abandon() of a closed "
              "builder would panic the background thread while the scheduled flag is set)")
     K.pair10_builder_slot(P, R, L)
